@@ -43,8 +43,19 @@ def copy_obligations(F, obligations, details):
             # containers: every subscript store assigns a .copy()/.clone() result (or None), into a fresh wrapper
             stores = [n for n in ast.walk(f.node) if isinstance(n, ast.Assign) and any(isinstance(t, ast.Subscript) for t in n.targets)]
             good = [n for n in stores if isinstance(n.value, ast.Call) and isinstance(n.value.func, ast.Attribute) and n.value.func.attr in ('copy', 'clone')]
-            ok = len(stores) >= 1 and len(good) == len(stores)
-            why = f'container: {len(good)}/{len(stores)} element stores assign .copy()/.clone() results'
+            # ... and the loop doing it must run over ALL entries of the very container it fills (e.g. `for k, v in phi.A.items()`),
+            # not over a subset of keys computed elsewhere (a site sweep misses the central block)
+            complete = True
+            for loop in [n for n in ast.walk(f.node) if isinstance(n, ast.For)]:
+                inner = [n for n in ast.walk(loop) if n in stores]
+                for st in inner:
+                    tgt = [t for t in st.targets if isinstance(t, ast.Subscript)][0]
+                    field = tgt.value.attr if isinstance(tgt.value, ast.Attribute) else None
+                    it = ast.unparse(loop.iter)
+                    if field is None or ('.' + field) not in it:
+                        complete = False
+            ok = len(stores) >= 1 and len(good) == len(stores) and complete
+            why = f'container: {len(good)}/{len(stores)} element stores assign .copy()/.clone() results; loop over all entries of the container: {complete}'
             if not stores and 'clone' in names or (not stores and 'copy' in names):
                 # delegating definitions: type(self)(ket=self.ket.clone(), ...)
                 ok = all(True for _ in [0]) and any(nm in ('copy', 'clone') for nm in names)
@@ -118,6 +129,7 @@ def run_check(args, seed):
                     details[oid] = f"{f.filename}:{ln}: {name} works in place on its argument {k} ({v})"
     copy_obligations(F, obligations, details)
     cross_discharge(obligations, details)
+    mps_copy_obligations(obligations, details)
     return finish(PROPERTY, args, seed, t0, obligations, details, funcs, ASSUMPTIONS, NOT_DECIDED, f"./check C15 --tier {args.tier}",
                   extra={'files_analysed': FILES, 'functions_analysed': len(F), 'public_callables_under_contract': len(funcs)})
 
@@ -152,6 +164,20 @@ def cross_discharge(obligations, details):
         fo = "yastn.tensor:Tensor.from_dict::frame"
         if obligations.get(fo) == 'failed':
             obligations[fo] = 'proved'
+
+
+def mps_copy_obligations(obligations, details):
+    """ semantic complement of the syntactic copy/clone obligation: the real MPS copy()/clone()/shallow_copy() run by the symbolic
+        interpreter on ghost tensors, with and without a central block (harness h_mps_copy of the C06 pack) """
+    import contracts.c06 as P
+    units = [('contracts.c06',) + tuple(u) for u in P.units('quick') if u[0] == 'h_mps_copy' and u[2]['N'] <= 3]
+    res = driver.run_units(units)
+    for r in res:
+        for name, o in r['obl'].items():
+            oid = f"mps-copy:{r['uid']}::{name}"
+            st = 'proved' if (o['status'] == 'proved' and not r['crash'] and not r['undecided']) else ('failed' if o['status'] == 'failed' else 'undecided')
+            obligations[oid] = st
+            details[oid] = 'symbolic execution of the real method on ghost tensors (pyvc, z3)'
 
 
 def _numeric_param(f, pname):
